@@ -54,6 +54,10 @@ def depth(T) -> int:
         return 0
     if k in ("carr", "sarr"):
         return 1 + depth(T[1])
+    if k == "tp":
+        return 0
+    if k == "ttrec":
+        return 1 + max([depth(f) for f in T[1]] + [depth(a) for a in T[2]])
     if k in ("rec", "trec", "trecW"):
         return 1 + max(depth(f) for f in T[1])
     if k == "ser":
@@ -91,8 +95,21 @@ def canon(T) -> str:
             out.append(",".join(fs[i:i + n]))
             i += n
         return "rec(" + "|".join(out) + ")"      # '|' separates inheritance levels, base first
-    if k == "trec":
-        return f"trec<{T[2]}>(" + ",".join(canon(f) for f in T[1]) + ")"
+    if k == "tp":
+        return f"tp{T[1]}"
+    if k in ("trec", "ttrec"):
+        fs = [canon(f) for f in T[1]]
+        split = T[3] if len(T) > 3 else (len(T[1]),)
+        arg = str(T[2]) if k == "trec" else ",".join(canon(a) for a in T[2])
+        if len(split) == 1:
+            body = ",".join(fs)
+        else:
+            out, i = [], 0
+            for n in split:
+                out.append(",".join(fs[i:i + n]))
+                i += n
+            body = "|".join(out)
+        return f"{k}<{arg}>({body})"
     if k == "trecW":
         return "trecW(" + ",".join(canon(f) for f in T[1]) + ")"
     if k == "ser":
@@ -175,6 +192,44 @@ def trecs(ws=(1, 2, 3), shapes=TREC_SHAPES):
             yield ("trec", sh, w)
 
 
+def tinherits(thorough=False):
+    """templated records whose template DECLARATIONS inherit from each other (1-3 levels, fields on several levels,
+    empty base / empty derived declarations included)"""
+    # int template argument
+    fw = (BIT, ("bvW",), ("sW",)) if not thorough else (BIT, ("bvW",), ("uW",), ("sW",))
+    for n in (2, 3):
+        if n == 3 and not thorough:
+            fw = (BIT, ("bvW",))
+        for fs in itertools.product(fw, repeat=n):
+            if not any(f[0] in ("bvW", "uW", "sW") for f in fs):
+                continue
+            for sp in only_inherited(n):
+                for w in (((1, 2, 3) if n == 2 else (2, 3)) if thorough else (2,)):
+                    yield ("trec", fs, w, sp)
+            if not thorough and n == 2:
+                yield ("trec", fs, 3, (1, 1))
+    # nested templated record inside an inherited template declaration
+    inner = ("trecW", (BIT, ("bvW",)))
+    for fs in ((inner, ("bvW",)), (("bvW",), inner), (BIT, inner, ("uW",))):
+        for sp in only_inherited(len(fs)):
+            for w in (1, 2):
+                yield ("trec", fs, w, sp)
+    # type template arguments (@std.TemplateArg with two type members)
+    targs = ((BV(3), U2), (BIT, S2), (("rec", (BIT, BV(2)), (2,)), BOOL))
+    if thorough:
+        targs += ((("sarr", BV(2), 2), ENUM_U2), (UFIX_0_m1, BV(1)))
+    for n in (2, 3):
+        ft = (("tp", 0), ("tp", 1), BIT) if (not thorough or n == 3) else (("tp", 0), ("tp", 1), BIT, BV(2))
+        for fs in itertools.product(ft, repeat=n):
+            if not any(f[0] == "tp" for f in fs):
+                continue
+            if n == 3 and not thorough and not ({("tp", 0), ("tp", 1)} <= set(fs)):
+                continue
+            for sp in (inherit_splits(n) if thorough else only_inherited(n) if n == 2 else ((1, 2), (2, 1), (1, 1, 1))):
+                for ta in (targs if (thorough and n == 2) else targs[:3] if thorough else targs[:2] if n == 2 else targs[:1]):
+                    yield ("ttrec", fs, ta, sp)
+
+
 # bit fields ------------------------------------------------------------------------------------
 BF_INNER3 = ("bf", 3, (("fb", 0), ("fv", 2, 1, "s")))
 BF_INNER2 = ("bf", 2, (("fv", 1, 0, "bv"), ("fb", 1)))
@@ -255,14 +310,16 @@ def family(thorough: bool):
     add("L1.carr", carrs(A, (2,) if not thorough else (2, 3)))
     add("L1.sarr", sarrs(A))
     add("L1.rec2", recs(A, (2,)))
-    add("L1.rec3", recs(ATOMS_SMALL + (S2, ENUM_U2) if not thorough else ATOMS_FULL, (3,)))
+    add("L1.rec3", recs(ATOMS_SMALL + (S2,) if not thorough else ATOMS_MID + (FLAG_BV3, SFIX_1_m1), (3,)))
     if not thorough:
-        add("L1.inherit", recs(ATOMS_SMALL + (S2, ENUM_U2), (2,), splits_for=only_inherited))
+        add("L1.inherit", recs(ATOMS_SMALL + (S2,), (2,), splits_for=only_inherited))
         add("L1.inherit", recs(tiny, (3,), splits_for=only_inherited))
     else:
         add("L1.inherit", recs(ATOMS_FULL, (2,), splits_for=only_inherited))
-        add("L1.inherit", recs(ATOMS_MID, (3,), splits_for=only_inherited))
+        add("L1.inherit", recs(ATOMS_SMALL + (S2,), (3,), splits_for=only_inherited))
     add("L1.trec", trecs())
+    tin = list(tinherits(thorough))
+    add("L1.tinherit", tin)
     add("L1.bf", bitfields(thorough))
 
     # ---- nesting 2 -----------------------------------------------------------------------
@@ -274,7 +331,7 @@ def family(thorough: bool):
             recs(ATOMS_SMALL, (2,)), (t for t in recs(tiny, (3,)) if width(t) <= 5),
             (("rec", (BIT, BV(2)), (1, 1)), ("rec", (BV(2), BOOL, BIT), (1, 2)), ("rec", (BV(3), BIT), (2, 0))),
             trecs((2,), TREC_SHAPES[:2]), bf_repr)))
-        partner = ATOMS_SMALL + (S2, ENUM_U2)
+        partner = ATOMS_SMALL
     else:
         inner_atoms = ATOMS_MID
         L1m = list(_dedupe(itertools.chain(
@@ -307,6 +364,11 @@ def family(thorough: bool):
                            for s in ((1, 1), (0, 2), (2, 0))))
     add("L2.trec", (("trec", (f, ("bvW",)), w) for f in inh1 for w in (1, 2)))
     add("L2.trec", (("trec", (("sarr", ("trecW", (BIT, ("bvW",))), 2), f), w) for f in ATOMS_SMALL for w in (1, 2)))
+    # templated + inherited records as elements / fields
+    tin_rep = [t for t in tin if width(t) <= 4 and len(t[3]) > 1][:: (8 if thorough else 9)]
+    add("L2.tinherit", sarrs(tin_rep, (2,)))
+    add("L2.tinherit", (("rec", fs, (2,)) for a in tin_rep for p in ATOMS_TINY for fs in ((a, p), (p, a))))
+    add("L2.tinherit", (("trec", (a, ("bvW",), BIT), 2, sp) for a in inh1[:6] for sp in ((1, 2), (2, 1), (1, 1, 1))))
 
     if thorough:
         # ---- nesting 3 -------------------------------------------------------------------
